@@ -1073,6 +1073,64 @@ fn gen_text(r: &mut Rng, kind: TextKind, valid_cbor: &[u8]) -> String {
                     _ => format!("{{\"map\":[{{\"k\":{},\"v\":{}}}]}}", j(r, d - 1), j(r, d - 1)),
                 }
             }
+            /// wallet-template documents (the Wallet schema of encode_json_str_to_native_script): valid
+            /// shapes with members dropped, mistyped or misplaced
+            fn tmpl(r: &mut Rng, d: u32) -> String {
+                let junk = |r: &mut Rng| ["1", "-1", "1.5", "\"x\"", "null", "[]", "{}", "true", "18446744073709551616"][r.usize(9)].to_string();
+                if d == 0 || r.below(3) == 0 {
+                    return match r.below(6) {
+                        0 => "\"cosigner#0\"".into(),
+                        1 => "\"cosigner#1\"".into(),
+                        2 => "\"self\"".into(),
+                        3 => format!("{{\"active_from\":{}}}", if r.below(4) == 0 { junk(r) } else { r.below(1 << 40).to_string() }),
+                        4 => format!("{{\"active_until\":{}}}", if r.below(4) == 0 { junk(r) } else { r.below(1 << 40).to_string() }),
+                        _ => junk(r),
+                    };
+                }
+                let list = |r: &mut Rng, d: u32| format!("[{}]", (0..r.usize(3)).map(|_| tmpl(r, d - 1)).collect::<Vec<_>>().join(","));
+                match r.below(6) {
+                    0 => format!("{{\"all\":{}}}", if r.below(5) == 0 { junk(r) } else { list(r, d) }),
+                    1 => format!("{{\"any\":{}}}", if r.below(5) == 0 { junk(r) } else { list(r, d) }),
+                    _ => {
+                        // "some": each member present, absent or mistyped
+                        let mut members = vec![];
+                        match r.below(4) {
+                            0 => {}
+                            1 => members.push(format!("\"at_least\":{}", junk(r))),
+                            _ => members.push(format!("\"at_least\":{}", r.below(4))),
+                        }
+                        match r.below(4) {
+                            0 => {}
+                            1 => members.push(format!("\"from\":{}", junk(r))),
+                            _ => members.push(format!("\"from\":{}", list(r, d))),
+                        }
+                        if r.below(6) == 0 {
+                            members.push("\"extra\":1".into());
+                        }
+                        if r.below(8) == 0 {
+                            format!("{{\"some\":{}}}", junk(r))
+                        } else {
+                            format!("{{\"some\":{{{}}}}}", members.join(","))
+                        }
+                    }
+                }
+            }
+            if r.below(5) == 0 {
+                let xpub = "a6c3c7c4d1d0e9ec0f7f0c0d8d1b9f1c6f0a0f6e0c9a1d2a3b4c5d6e7f8091a2b3c4d5e6f708192a3b4c5d6e7f8091a2b3c4d5e6f708192a3b4c5d6e7f8091a2b";
+                let cos = match r.below(5) {
+                    0 => "{}".to_string(),
+                    1 => "[]".to_string(),
+                    2 => format!("{{\"cosigner#0\":\"self\",\"cosigner#1\":\"{}\"}}", xpub),
+                    3 => "{\"cosigner#0\":5}".to_string(),
+                    _ => format!("{{\"cosigner#0\":\"{}\",\"cosigner#1\":\"{}zz\"}}", xpub, &xpub[..20]),
+                };
+                let t = tmpl(r, 3);
+                return match r.below(8) {
+                    0 => format!("{{\"template\":{}}}", t),
+                    1 => format!("{{\"cosigners\":{}}}", cos),
+                    _ => format!("{{\"cosigners\":{},\"template\":{}}}", cos, t),
+                };
+            }
             let mut s = j(r, 3);
             match r.below(8) {
                 0 => {
